@@ -122,6 +122,10 @@ def main():
         from snaxc.tools.snax_opt_main import SNAXOptMain
 
         _MAIN = SNAXOptMain(args=[])
+        # snax-opt does not register the XDMA by default (snaxc does so from the hardware configuration file)
+        from snaxc.accelerators.snax_xdma import SNAXXDMAAccelerator
+
+        _MAIN.ctx.register_accelerator("snax_xdma", lambda: SNAXXDMAAccelerator())
     return _MAIN
 
 
